@@ -160,6 +160,73 @@ pub fn writer_faults(ctx: &Ctx) {
     ctx.nontrivial();
 }
 
+/// The caller carries on after a failed call: every op of the program is attempted whatever the
+/// earlier ones returned, and finalize is attempted up to two times. "Whenever top-level finalize
+/// reports success the device holds the complete file" - complete here means: the independent
+/// validator accepts it and it holds exactly the content of the calls that returned Ok.
+pub fn writer_continue(ctx: &Ctx) {
+    let p = writer_program(ctx);
+    let dev = Dev::empty();
+    let h = dev.handle();
+    let (err, fin, _) = run_with_device(dev, &h, &p, Chunk::Full, None);
+    if err.is_some() || !fin {
+        ctx.violation(format!("{P}/program-failed"), format!("fault-free run failed: {err:?}; {}", describe(&p)));
+        return;
+    }
+    let nops = h.with(|s| s.ops) as usize;
+    let k = ctx.pick("fault-at-device-op", nops);
+    let errkind = ERR_KINDS[ctx.pick("error-kind", 2)];
+    ctx.describe(|| format!("{}: {} device operations, injected {errkind:?} error at operation {k}; the caller continues with the remaining calls and tries finalize twice", describe(&p), nops));
+    let res = guarded(|| {
+        let dev = Dev::empty();
+        dev.with(|s| {
+            s.fault_at = Some(k as u64);
+            s.fault_errkind = errkind;
+        });
+        let h = dev.handle();
+        let mut w = match e57::E57Writer::new(dev, &p.guid) {
+            Ok(w) => w,
+            Err(_) => return None,
+        };
+        let mut done: Vec<Op> = Vec::new();
+        let mut failed = 0;
+        for op in &p.ops {
+            let one = Program { guid: p.guid.clone(), ops: vec![op.clone()], ..Default::default() };
+            if exec_ops(&mut w, &one).is_ok() {
+                done.push(op.clone());
+            } else {
+                failed += 1;
+            }
+        }
+        let mut attempts = 0;
+        let mut fin = false;
+        while attempts < 2 && !fin {
+            attempts += 1;
+            fin = w.finalize().is_ok();
+        }
+        Some((done, failed, fin, attempts, h.snapshot()))
+    });
+    ctx.ops(20);
+    match res {
+        Err(pi) => ctx.violation(format!("{P}/panic/{}", pi.class()), format!("writer panicked at {} ({}) when the caller continued after a device error at operation {k}: {}", pi.loc, pi.msg, describe(&p))),
+        Ok(None) => ctx.nontrivial(),
+        Ok(Some((done, failed, fin, attempts, bytes))) => {
+            ctx.count(format!("failed-calls:{failed}:finalize-{}", if fin { format!("ok-at-attempt-{attempts}") } else { "refused".to_string() }));
+            if fin {
+                let pexp = Program { guid: p.guid.clone(), ops: done, ..Default::default() };
+                let w = crate::oracle::Written { bytes, run: RunResult { finalized: true, ..Default::default() } };
+                ctx.describe(|| format!("{}: {errkind:?} error at device operation {k} of {nops}, {failed} call(s) failed, finalize Ok at attempt {attempts}; expected content: {}", describe(&p), describe(&pexp)));
+                if crate::c02::spec_check(ctx, &pexp, &w) {
+                    ctx.observe(&w.bytes);
+                    ctx.nontrivial();
+                }
+            } else {
+                ctx.nontrivial();
+            }
+        }
+    }
+}
+
 /// short writes / short reads of the blob source: bytes identical to the full-transfer run
 pub fn writer_chunks(ctx: &Ctx) {
     let p = writer_program(ctx);
